@@ -45,7 +45,7 @@ Proof. induction cs as [|c cs IH]; simpl; [reflexivity|]. simpl in IH. rewrite I
 Lemma recombine_pot n : pot (recombine n) = pot n.
 Proof.
   destruct n as [sp ph kids]. destruct ph; try reflexivity.
-  destruct sp as [z|e|p cs|cs|c|cs]; cbn [recombine]; try reflexivity.
+  destruct sp as [z|e|p cs|cs|c|cs|cs]; cbn [recombine]; try reflexivity.
   - destruct (first_ko kids); [reflexivity|]. destruct (all_ok kids); reflexivity.
   - destruct (first_ko kids); [reflexivity|]. destruct (all_ok kids); [|reflexivity].
     destruct (nth_error cs (length kids)) as [c|] eqn:En; [|reflexivity].
@@ -55,6 +55,7 @@ Proof.
   - destruct kids as [|k [|k2 r]]; try reflexivity. destruct (nphase k) as [| | |[v|e]]; reflexivity.
   - destruct (forallb kid_done kids); [|reflexivity].
     destruct (first_ko kids); [reflexivity|]. destruct (all_ok kids); reflexivity.
+  - destruct (forallb kid_done kids); [|reflexivity]. destruct (all_ok kids); reflexivity.
 Qed.
 
 (** * the two actions decrease the potential or do nothing *)
@@ -69,12 +70,13 @@ Qed.
 Lemma dec_finish : dec_action do_finish.
 Proof.
   intros [sp ph kids] H. destruct ph; try (left; reflexivity). right.
-  destruct sp as [z|e|p cs|cs|c|cs]; cbn [do_finish].
+  destruct sp as [z|e|p cs|cs|c|cs|cs]; cbn [do_finish].
   - simpl. lia.
   - simpl. lia.
   - rewrite recombine_pot. cbn [pot rest]. rewrite pots_idle. simpl. unfold sumsz. lia.
   - rewrite recombine_pot. cbn [pot rest map list_sum length skipn]. simpl. unfold sumsz. lia.
   - cbn [pot rest map list_sum idle]. simpl. lia.
+  - rewrite recombine_pot. cbn [pot rest]. rewrite pots_idle. simpl. unfold sumsz. lia.
   - rewrite recombine_pot. cbn [pot rest]. rewrite pots_idle. simpl. unfold sumsz. lia.
 Qed.
 
@@ -102,7 +104,7 @@ Proof. induction kids as [|k r IH]; simpl; [reflexivity|]. rewrite IH. reflexivi
 
 Lemma recombine_idem sp kids : recombine (recombine (Node sp PEval kids)) = recombine (Node sp PEval kids).
 Proof.
-  destruct sp as [z|e|p cs|cs|c|cs]; cbn [recombine]; try reflexivity.
+  destruct sp as [z|e|p cs|cs|c|cs|cs]; cbn [recombine]; try reflexivity.
   - destruct (first_ko kids) eqn:E1; [reflexivity|]. destruct (all_ok kids) eqn:E2; [reflexivity|].
     cbn [recombine]. rewrite E1, E2. reflexivity.
   - destruct (first_ko kids) eqn:E1; [reflexivity|]. destruct (all_ok kids) eqn:E2.
@@ -114,17 +116,20 @@ Proof.
   - destruct (forallb kid_done kids) eqn:E0; [|cbn [recombine]; rewrite E0; reflexivity].
     destruct (first_ko kids) eqn:E1; [reflexivity|]. destruct (all_ok kids) eqn:E2; [reflexivity|].
     cbn [recombine]. rewrite E0, E1, E2. reflexivity.
+  - destruct (forallb kid_done kids) eqn:E0; [|cbn [recombine]; rewrite E0; reflexivity].
+    destruct (all_ok kids); reflexivity.
 Qed.
 
 Lemma nkids_recombine_RS sp kids : Forall RS kids -> Forall RS (nkids (recombine (Node sp PEval kids))).
 Proof.
-  intros H. destruct sp as [z|e|p cs|cs|c|cs]; cbn [recombine]; auto.
+  intros H. destruct sp as [z|e|p cs|cs|c|cs|cs]; cbn [recombine]; auto.
   - destruct (first_ko kids); auto. destruct (all_ok kids); auto.
   - destruct (first_ko kids); auto. destruct (all_ok kids); auto. destruct (nth_error cs (length kids)); auto.
     cbn [nkids]. apply Forall_app. split; auto. constructor; [|constructor].
     constructor; [constructor|apply ok_eval_not_eval; discriminate].
   - destruct kids as [|k [|k2 r]]; auto. destruct (nphase k) as [| | |[v|e]]; auto.
   - destruct (forallb kid_done kids); auto. destruct (first_ko kids); auto. destruct (all_ok kids); auto.
+  - destruct (forallb kid_done kids); auto. destruct (all_ok kids); auto.
 Qed.
 
 Lemma RS_recombine sp kids : (forall z, sp <> SLeaf z) -> (forall e, sp <> SRaise e) ->
@@ -149,13 +154,15 @@ Qed.
 
 Lemma RS_finish n : RS n -> RS (do_finish n).
 Proof.
-  destruct n as [sp ph kids]. intros H. destruct ph; try exact H. destruct sp as [z|e|p cs|cs|c|cs]; cbn [do_finish].
+  destruct n as [sp ph kids]. intros H. destruct ph; try exact H. destruct sp as [z|e|p cs|cs|c|cs|cs]; cbn [do_finish].
   - constructor; [constructor|apply ok_eval_not_eval; discriminate].
   - constructor; [constructor|apply ok_eval_not_eval; discriminate].
   - apply RS_recombine; try discriminate. apply Forall_forall. intros x Hx. apply in_map_iff in Hx.
     destruct Hx as (c & <- & _). apply RS_idle.
   - apply RS_recombine; try discriminate. constructor.
   - constructor; [constructor; [apply RS_idle|constructor]|reflexivity].
+  - apply RS_recombine; try discriminate. apply Forall_forall. intros x Hx. apply in_map_iff in Hx.
+    destruct Hx as (c & <- & _). apply RS_idle.
   - apply RS_recombine; try discriminate. apply Forall_forall. intros x Hx. apply in_map_iff in Hx.
     destruct Hx as (c & <- & _). apply RS_idle.
 Qed.
@@ -285,13 +292,14 @@ Lemma recombine_kids sp ph kids :
   nkids (recombine (Node sp ph kids)) = kids \/ exists c, nkids (recombine (Node sp ph kids)) = kids ++ [idle c].
 Proof.
   destruct ph; try (left; reflexivity).
-  destruct sp as [z|e|p cs|cs|c|cs]; cbn [recombine]; try (left; reflexivity).
+  destruct sp as [z|e|p cs|cs|c|cs|cs]; cbn [recombine]; try (left; reflexivity).
   - destruct (first_ko kids); [left; reflexivity|]. destruct (all_ok kids); left; reflexivity.
   - destruct (first_ko kids); [left; reflexivity|]. destruct (all_ok kids); [|left; reflexivity].
     destruct (nth_error cs (length kids)) as [c|]; [right; exists c; reflexivity|left; reflexivity].
   - destruct kids as [|k [|k2 r]]; try (left; reflexivity). destruct (nphase k) as [| | |[v|e]]; left; reflexivity.
   - destruct (forallb kid_done kids); [|left; reflexivity].
     destruct (first_ko kids); [left; reflexivity|]. destruct (all_ok kids); left; reflexivity.
+  - destruct (forallb kid_done kids); [|left; reflexivity]. destruct (all_ok kids); left; reflexivity.
 Qed.
 
 Lemma upd_cons_fix f i p sp ph kids :
@@ -329,13 +337,14 @@ Proof. induction 1 as [|k r Hk _ IH]; simpl; auto. destruct Hk. simpl. exact IH.
 
 Lemma recombine_phase_not_run sp kids : nphase (recombine (Node sp PEval kids)) <> PRun.
 Proof.
-  destruct sp as [z|e|p cs|cs|c|cs]; cbn [recombine]; try (simpl; discriminate).
+  destruct sp as [z|e|p cs|cs|c|cs|cs]; cbn [recombine]; try (simpl; discriminate).
   - destruct (first_ko kids); [simpl; discriminate|]. destruct (all_ok kids); simpl; discriminate.
   - destruct (first_ko kids); [simpl; discriminate|]. destruct (all_ok kids); [|simpl; discriminate].
     destruct (nth_error cs (length kids)); simpl; discriminate.
   - destruct kids as [|k [|k2 r]]; try (simpl; discriminate). destruct (nphase k) as [| | |[v|e]]; simpl; discriminate.
   - destruct (forallb kid_done kids); [|simpl; discriminate].
     destruct (first_ko kids); [simpl; discriminate|]. destruct (all_ok kids); simpl; discriminate.
+  - destruct (forallb kid_done kids); [|simpl; discriminate]. destruct (all_ok kids); simpl; discriminate.
 Qed.
 
 Theorem quiescent_settled n : Inv n -> (forall o, step n o = n) -> Settled n.
@@ -351,9 +360,9 @@ Proof.
   destruct ph as [| | |o].
   - exfalso. specialize (Q (OStart [])). simpl in Q. discriminate.
   - exfalso. specialize (Q (OFinish [])). cbn [step upd] in Q. apply (f_equal nphase) in Q. cbn [nphase] in Q.
-    destruct sp as [z|e|p cs|cs|c|cs]; cbn [do_finish] in Q; try discriminate;
+    destruct sp as [z|e|p cs|cs|c|cs|cs]; cbn [do_finish] in Q; try discriminate;
       try (eapply recombine_phase_not_run; exact Q).
-  - exfalso. destruct sp as [z|e|p cs|cs|c|cs]; try exact HO; cbn [ok_eval recombine] in HO.
+  - exfalso. destruct sp as [z|e|p cs|cs|c|cs|cs]; try exact HO; cbn [ok_eval recombine] in HO.
     + destruct (first_ko kids) eqn:E1; [discriminate|].
       destruct (done_no_ko_all_ok kids HS E1) as (vs & E2). rewrite E2 in HO. discriminate.
     + destruct (first_ko kids) eqn:E1; [discriminate|].
@@ -364,6 +373,7 @@ Proof.
       inversion HS as [|? ? Hk _]; subst. destruct Hk as [spk ok kk _]. simpl in HO. destruct ok; discriminate.
     + rewrite (settled_kid_done kids HS) in HO. destruct (first_ko kids) eqn:E1; [discriminate|].
       destruct (done_no_ko_all_ok kids HS E1) as (vs & E2). rewrite E2 in HO. discriminate.
+    + rewrite (settled_kid_done kids HS) in HO. destruct (all_ok kids); discriminate.
   - constructor. exact HS.
 Qed.
 
